@@ -328,17 +328,22 @@ def readStream (x : Stream) (buflen : Nat) : Stream × ReadOut :=
   | .shortBuffer => (x, .short r.2.n)
   | .tryAgain => (x, if x.readErr then .eof else .block)   -- the queue is served before `readErr`
 
+/-- the object `find? p` finds is replaced by `v` -/
+def setFirst (p : Stream → Bool) (v : Stream) : List Stream → List Stream
+  | [] => []
+  | y :: l => if p y then v :: l else y :: setFirst p v l
+
 /-- Go: `Stream.ReadSCTP` on the object `(si, inc)` -/
 def read (s : St) (name : Name) (buflen : Nat) : St × ReadOut :=
   match s.streams.find? (fun x => x.si == name.1 && x.inc == name.2) with
   | some x =>
     let r := readStream x buflen
-    ({ s with streams := s.streams.map fun y => if y.si == name.1 && y.inc == name.2 then r.1 else y }, r.2)
+    ({ s with streams := setFirst (fun y => y.si == name.1 && y.inc == name.2) r.1 s.streams }, r.2)
   | none =>
     match s.gone.find? (fun x => x.si == name.1 && x.inc == name.2) with
     | some x =>
       let r := readStream x buflen
-      ({ s with gone := s.gone.map fun y => if y.si == name.1 && y.inc == name.2 then r.1 else y }, r.2)
+      ({ s with gone := setFirst (fun y => y.si == name.1 && y.inc == name.2) r.1 s.gone }, r.2)
     | none => (s, .nostream)
 
 /-- Go: a non-blocking receive from `acceptCh` -/
